@@ -6,7 +6,7 @@ PATCH="$(realpath "$1")"; shift
 WT=/tmp/verif_mut_$$
 git -C /repo worktree add -q --detach "$WT" HEAD
 TAG=$(python3 -c "import hashlib,sys;print(hashlib.sha1(sys.argv[1].encode()).hexdigest()[:8])" "$WT")
-trap 'git -C /repo worktree remove --force "$WT" 2>/dev/null; rm -rf "$WT"; rm -rf /verif/.cache/target-alt-$TAG /verif/.cache/harness-alt-$TAG /verif/.cache/Tables-alt-$TAG.v /verif/.cache/LexTables-alt-$TAG.v /verif/.cache/FmtTables-alt-$TAG.v /verif/.cache/NumTables-alt-$TAG.v /verif/.cache/KeyTables-alt-$TAG.v /verif/.cache/EqTables-alt-$TAG.v /verif/.cache/ScanTables-alt-$TAG.v /verif/.cache/CursorTables-alt-$TAG.v /verif/.cache/PtrTables-alt-$TAG.v /verif/.cache/MapTables-alt-$TAG.v /verif/.cache/SerTables-alt-$TAG.v /verif/.cache/IgnoreTables-alt-$TAG.v' EXIT
+trap 'git -C /repo worktree remove --force "$WT" 2>/dev/null; rm -rf "$WT"; rm -rf /verif/.cache/target-alt-$TAG /verif/.cache/harness-alt-$TAG; rm -f /verif/.cache/*-alt-$TAG.v' EXIT
 git -C "$WT" apply "$PATCH"
 cd /verif
 for id in "$@"; do
